@@ -1185,6 +1185,15 @@ def shared_run(ctx, judge, pid):
             skipped[str(e)] = skipped.get(str(e), 0) + 1
     bad = core.coq_eval_cases(ctx, "simp", PREAMBLE, "model * options * obs", enc, "check_case", shard=100,
                               timeout=1200)
+    if pid == "C15":
+        # tie the well-formedness hypothesis of the closedness composition: the values of the parameters /
+        # constants of EVERY generated (pre-simplification) model only mention declared symbols
+        badv = core.coq_eval_cases(ctx, "valsclosed", PREAMBLE + "From PV Require Import Proofs.C15_closed.\n",
+                                   "model * options * obs", enc, "(fun c => vals_closedb (fst (fst c)))",
+                                   shard=100, timeout=1200)
+        ctx.oblige("hypothesis:vals_closedb-holds-of-every-generated-model", badv == [],
+                   "cases where a parameter/constant value mentions an undeclared symbol: %s"
+                   % ([idx[j] for j in badv][:8] if badv else badv))
     mism = None if bad is None else [idx[j] for j in bad]
     ctx.oblige("correspondence:model-vs-Model.simplify", bad == [],
                "mismatching cases: %s" % (mism[:8] if mism else mism))
